@@ -139,7 +139,7 @@ def run_real(case):
     for ev in rec.run.evals:
         if ev["ret"] is None or mon.viols:
             continue
-        want = np.asarray(ev["pb"].build_x(ev["x"]), dtype=float)
+        want = _o.user_of(rec, ev["pb"], ev["x"])
         sl = rec.run.log[ev["log0"]:ev.get("log1", ev["log0"])]
         if rec.built.fun is not None and \
                 not any(e["t"] == "obj" for e in sl):
